@@ -38,9 +38,9 @@ PROPS_FILE = "Ipv8/C10/Props.lean"
 DRIVER = "drv_c10"
 LEANCHECKER_MODULES = ["Ipv8.C10.Model", "Ipv8.C10.Lemmas", "Ipv8.C10.Source", "Ipv8.C10.AsyncTask"]
 RULE = ("a case = one scripted history run on the real RequestCache under the virtual clock; distinct = distinct "
-        "(specs, script); non-trivial = at least one request was registered and at least one resolution "
-        "(claim/timeout/clear/shutdown of an outstanding request) happened; families: random, lanes (exhaustive "
-        "small scope), sequences (exhaustive small scope)")
+        "(specs, script); non-trivial = at least one request was registered and at least one of them was resolved by "
+        "the scripted history itself (claim, timeout, or a scripted clear/shutdown while outstanding) - the harness's "
+        "own closing shutdown does not count; families: random, population, long, lanes, sequences")
 TRUSTED_BASE = [
     "tools/gen_rc.py (constants, shape checks of find_unclaimed_identifier/_create_identifier, and the statement "
     "sequences of RequestCache.add/pop/_on_timeout/clear/shutdown as primitive-op lists; meaning of the primitives: "
@@ -52,8 +52,10 @@ TRUSTED_BASE = [
     "scripted bodies",
 ]
 ASSUMPTIONS = [
-    "asyncio enters the request-cache model as enabledness rules R1-R4; R1/R2 are additionally proved over a "
-    "transcription of asyncio.Task.cancel/__step (AsyncTask.lean); both are validated against CPython by the run",
+    "asyncio enters the request-cache model as enabledness rules R1-R4 (validated by trace inclusion on every history); "
+    "AsyncTask.lean (Task.cancel/__step transcription) is executed against the real asyncio.Task at every observed "
+    "cancel (phase at cancel -> body entered? ended how?), TaskMgr.lean (several Tasks per cache, done_cb window) is "
+    "not executed: only its `doneCbGuarded` parameter is read from taskmanager.py",
     "on_timeout bodies and done-callbacks run synchronous RequestCache calls only; shutdown() is awaited from a task",
     "single event-loop thread (the threading.Lock in RequestCache is not modelled)",
 ]
@@ -62,6 +64,11 @@ PFX = ["ping", "retry", "ping:1"]
 CLS = ["A", "B", "C", "D", "R", "N"]          # 5 = NumberCache itself (filter only)
 GRID = 125
 MAX_BODY_RUNS = 3
+
+
+def enc(n: int) -> int:
+    """numbers may be negative or huge; the model's identifiers are naturals: zig-zag code (injective)"""
+    return 2 * n if n >= 0 else -2 * n - 1
 
 
 class Boom(Exception):
@@ -140,12 +147,15 @@ class Run:
         # oracle bookkeeping (independent of the Lean model)
         self.outstanding: dict[tuple[int, int], int] = {}
         self.deadline: dict[int, int] = {}
+        self.deadlines: dict[int, set] = {}
+        self._cm_stack: list = []
         self.history: dict[int, list[str]] = {}
         self.sd = False
         self.in_fire: int | None = None
         self.swept = False
         self.body_runs: dict[int, int] = {}
         self.waiters: list = []
+        self.atask_obs: list = []
         self._cm_last = None
         self.stats = {"added": 0, "claimed": 0, "timeout": 0, "dropped": 0, "keyerror": 0, "dup": 0, "inuse": 0,
                       "woken_cancel": 0, "same_instant_pop": 0, "body_ops": 0, "late_add_shutdown": 0}
@@ -179,10 +189,10 @@ class Run:
 
     def digest(self) -> str:
         ids = []
-        for (p, n) in self.universe:
+        for (p, n) in sorted(self.universe, key=lambda e: (e[0], enc(e[1]))):
             o = self.rc.get(PFX[p], n)
             if o is not None:
-                ids.append(f"{p}:{n}={self.name_of(o)}")
+                ids.append(f"{p}:{enc(n)}={self.name_of(o)}")
         act = [str(i) for i, k in enumerate(self.order) if self.rc.is_pending_task_active(self.objs[k])]
         futs = [f"{i}:" + "".join(self.fut_char(f) for f in self.futs[k]) for i, k in enumerate(self.order)]
         return "ids=[" + ",".join(ids) + "] act=[" + ",".join(act) + "] futs=[" + ",".join(futs) + "]"
@@ -243,7 +253,7 @@ class Run:
         t = self.now()
         if t != self.last_t:
             for ident, k in list(self.outstanding.items()):
-                if self.deadline.get(k, t) < t:
+                if max(self.deadlines.get(k, {t})) < t:
                     self.fail("RequestCache._on_timeout:missing",
                               f"request {k} {ident} was registered with deadline {self.deadline[k]} ms and was neither "
                               f"claimed nor dropped, but at {t} ms its timeout has not fired")
@@ -255,8 +265,29 @@ class Run:
         self.log.append((self.now(), line, reply + " | " + self.digest()))
 
     # ---- the event handlers --------------------------------------------------------------------------
+    def observe_cancel(self, k):
+        """the real asyncio.Task registered under cache k is about to be cancelled: note its phase (AsyncTask.lean)"""
+        o = self.objs.get(k)
+        if o is None or not self.rc.is_pending_task_active(o):
+            return
+        tk = self.rc.get_task(o)
+        if tk is None or not isinstance(tk, asyncio.Task):
+            return
+        if getattr(tk, "_c10_body", 0) and self.in_fire == k:
+            phase = "running"
+        else:
+            w = getattr(tk, "_fut_waiter", "n/a")
+            if w == "n/a":
+                return                       # this interpreter does not expose the waiter: no Task-level observation
+            phase = "created" if w is None else ("woken" if w.done() else "sleeping")
+        self.atask_obs.append((tk, getattr(tk, "_c10_delayed", True), phase))
+        self.stats["atask:" + phase] = self.stats.get("atask:" + phase, 0) + 1
+
     def on_fire(self, cache):
         k = cache._k
+        tk = asyncio.current_task()
+        if tk is not None:
+            tk._c10_body = getattr(tk, "_c10_body", 0) + 1
         self.pre(from_fire=True)
         t = self.now()
         ident = (self.specs[k]["p"], cache.number)
@@ -269,9 +300,10 @@ class Run:
             self.fail(f"RequestCache._on_timeout:{kind}",
                       f"on_timeout of request {k} {ident} ran at {t} ms although it was not outstanding (last: {last})")
         else:
-            if self.deadline[k] != t:
+            if t not in self.deadlines[k]:
                 self.fail("RequestCache._on_timeout:wrong-time",
-                          f"request {k} timed out at {t} ms, its deadline was {self.deadline[k]} ms")
+                          f"request {k} timed out at {t} ms, its deadline was {self.deadline[k]} ms"
+                          + (f" (admissible: {sorted(self.deadlines[k])})" if len(self.deadlines[k]) > 1 else ""))
             del self.outstanding[ident]
         hist.append("timeout")
         self.stats["timeout"] += 1
@@ -286,7 +318,24 @@ class Run:
             for op in body:
                 self.stats["body_ops"] += 1
                 if op[0] == "raise":
-                    self.lazy.append((t, "fa", f"aborted {self.idx[k]}", None))
+                    # the timeout HAS fired: the property's "futures tied to it are completed on timeout" does not
+                    # depend on how on_timeout() ends, so the futures pending now must be done once _on_timeout is over
+                    pend_now = [not f.done() for f, _, _ in self.futs[k]]
+
+                    def post_abort():
+                        for i, (f, is_exc, exc) in enumerate(self.futs[k]):
+                            if not f.done():
+                                self.fail("RequestCache._on_timeout:future-left-pending-after-raise",
+                                          f"on_timeout of request {k} raised; its managed future {i} was left pending "
+                                          f"(its identifier is gone, so shutdown will not cancel it either)")
+                            elif i < len(pend_now) and pend_now[i]:
+                                ch = self.fut_char((f, is_exc, exc))
+                                if ch != ("E" if is_exc else "R"):
+                                    self.fail("RequestCache._on_timeout:future-wrong-value",
+                                              f"managed future {i} of request {k} completed as {ch} on timeout")
+                    self.lazy.append((t, "fa", f"aborted {self.idx[k]}", post_abort))
+                    if tk is not None:
+                        tk._c10_raised = True
                     raise Boom
                 self.do_op(op)
         finally:
@@ -352,6 +401,8 @@ class Run:
     def do_op(self, op):
         self.pre()
         kind = op[0]
+        if any(not tk.done() for tk in self.sd_tasks):
+            self.stats["op_while_shutdown_awaits"] = self.stats.get("op_while_shutdown_awaits", 0) + 1
         t = self.now()
         if kind == "seq":
             for sub in op[1]:
@@ -372,12 +423,12 @@ class Run:
             ks = "[" + ",".join("1" if int(x) == 1 else "0" for x in sp["futs"]) + "]"
             d = "-" if sp["delay"] is None else str(sp["delay"])
             if sp["cls"] == 4:
-                line = f"mkr {sp['p']} [{','.join(map(str, self.planned_cands(sp)))}] {d} {sp['cls']} {ks}"
+                line = f"mkr {sp['p']} [{','.join(str(enc(x)) for x in self.planned_cands(sp))}] {d} {sp['cls']} {ks}"
             else:
-                line = f"mk {sp['p']} {sp['n']} {d} {sp['cls']} {ks}"
+                line = f"mk {sp['p']} {enc(sp['n'])} {d} {sp['cls']} {ks}"
             try:
                 o = self.construct(k)
-                reply = f"mk {self.idx[k]} {o.number}"
+                reply = f"mk {self.idx[k]} {enc(o.number)}"
                 ident = (sp["p"], o.number)
                 if ident in self.outstanding:
                     self.fail("NumberCache.__init__:duplicate-guard",
@@ -436,6 +487,15 @@ class Run:
             if r is o and not self.sd:
                 self.outstanding[ident] = k
                 self.deadline[k] = t + self.eff_delay(o)
+                # C10 does not say what an inner passthrough exit does to an outer block: the code resets everything
+                # (what `eff_delay` mirrors), a nesting-aware implementation would restore the outer override —
+                # either deadline is accepted
+                self.deadlines[k] = {self.deadline[k], t + self.eff_delay(o, nested=True)}
+                if len(self.deadlines[k]) > 1:
+                    self.stats["delay:nesting-ambiguous"] = self.stats.get("delay:nesting-ambiguous", 0) + 1
+                tk_new = self.rc.get_task(o)
+                if tk_new is not None:
+                    tk_new._c10_delayed = self.deadline[k] != t
                 base = round(o.timeout_delay * 1000)
                 cls_ = ("no-passthrough" if self._cm_last is None else
                         "override-unfiltered" if self._cm_last[1] is None else
@@ -466,11 +526,13 @@ class Run:
                     self.stats["same_instant_pop"] += 1
             form = op[3] if len(op) > 3 else "str"
             self.stats["api:" + kind + ":" + form] = self.stats.get("api:" + kind + ":" + form, 0) + 1
+            if exp is not None:
+                self.observe_cancel(exp)
             try:
                 if kind == "pop":
                     o = self.rc.pop(self.named(p) if form == "cls" else PFX[p], n)
                 else:
-                    o = self.retrieve(p, n, with_data=(form == "wd"))
+                    o = self.retrieve(p, n, with_data=form in ("wd", "wd2"), decoy=form in ("2p", "wd2"))
                     if o is None:
                         raise KeyError
                 k = getattr(o, "_k", None)
@@ -491,7 +553,7 @@ class Run:
                     self.fail("RequestCache.pop:outstanding-not-found",
                               f"pop({PFX[p]!r}, {n}) at {t} ms raised KeyError although request {exp} is outstanding")
                     del self.outstanding[(p, n)]
-            self.emit(f"pop {p} {n}", reply)
+            self.emit(f"pop {p} {enc(n)}", reply)
             return
         if kind == "get":
             p, n = op[1], op[2]
@@ -505,7 +567,7 @@ class Run:
                 self.fail("RequestCache.get:wrong-result",
                           f"get/has({PFX[p]!r}, {n}) at {t} ms gave {self.name_of(o) if o is not None else None}/{h}, "
                           f"outstanding request there: {exp}")
-            self.emit(f"get {p} {n}", "got none" if o is None else f"got {self.name_of(o)}")
+            self.emit(f"get {p} {enc(n)}", "got none" if o is None else f"got {self.name_of(o)}")
             return
         if kind == "enter":
             tm, fs = op[1], op[2]
@@ -516,16 +578,30 @@ class Run:
             cm.__enter__()
             self.cms.append(cm)
             self._cm_last = (tm, fs)
+            self._cm_stack.append((tm, fs))
             self.emit(f"enter {tm} " + ("-" if fs is None else "[" + ",".join(map(str, fs)) + "]"), "done")
             return
         if kind == "exit":
             if not self.cms:
                 return
-            self.cms.pop().__exit__(None, None, None)
+            cm = self.cms.pop()
+            if len(op) > 1 and op[1] == "exc":
+                # the `with` block is left by an exception: the override must be reset all the same
+                e = Boom()
+                try:
+                    cm.__exit__(Boom, e, None)
+                except Boom:
+                    pass
+                self.stats["passthrough_exit_by_exception"] = self.stats.get("passthrough_exit_by_exception", 0) + 1
+            else:
+                cm.__exit__(None, None, None)
             self._cm_last = None
+            self._cm_stack.pop()
             self.emit("exit", "done")
             return
         if kind == "clear":
+            for kk in list(self.outstanding.values()) + ([self.in_fire] if self.in_fire is not None else []):
+                self.observe_cancel(kk)
             self.rc.clear()
             for ident, k in self.outstanding.items():
                 self.history.setdefault(k, []).append("dropped")
@@ -573,12 +649,14 @@ class Run:
             return
         raise ValueError(f"unknown op {op}")
 
-    def eff_delay(self, o) -> int:
-        """the oracle's own reading of the passthrough rule (leaving ANY passthrough block resets the override)"""
+    def eff_delay(self, o, nested=False) -> int:
+        """the oracle's own reading of the passthrough rule; nested=False: as the code does it (leaving ANY block
+        resets the override), nested=True: as a nesting-aware context manager would (innermost open block wins)"""
         base = round(o.timeout_delay * 1000)
-        if self._cm_last is None:
+        cur = (self._cm_stack[-1] if self._cm_stack else None) if nested else self._cm_last
+        if cur is None:
             return base
-        tm, fs = self._cm_last
+        tm, fs = cur
         if fs is None or any(issubclass(type(o), classes()[CLS[f]]) for f in fs):
             return tm
         return base
@@ -588,7 +666,7 @@ class Run:
         """a cache class with a `name` attribute: the class form of has/get/pop and of retrieve_cache"""
         return type("Named", (), {"name": PFX[p]})
 
-    def retrieve(self, p, n, with_data=False):
+    def retrieve(self, p, n, with_data=False, decoy=False):
         from ipv8.lazy_community import retrieve_cache
         got = []
         marker = self.named(p)
@@ -604,17 +682,34 @@ class Run:
             @retrieve_cache(marker)
             def on_message_wd(self_inner, peer, payload, data, cache):  # noqa: N805
                 got.append(cache)
+
+            @retrieve_cache(marker)
+            def on_message2(self_inner, peer, auth, payload, cache):  # noqa: N805
+                got.append(cache)
+
+            @retrieve_cache(marker)
+            def on_message2_wd(self_inner, peer, auth, payload, data, cache):  # noqa: N805
+                got.append(cache)
         payload = type("Payload", (), {"identifier": n})()
-        if with_data:       # the `_wd` wrappers pass the raw data last: the identifier comes from payloads[-2]
+        # lazy_wrapper(P1, P2): the identifier is the LAST payload's; the first one carries another request's number
+        other = next((m for (q, m) in self.universe if q == p and m != n), n + 1)
+        first = type("Auth", (), {"identifier": other})()
+        if with_data and decoy:   # the `_wd` wrappers pass the raw data last: the identifier comes from payloads[-2]
+            Overlay().on_message2_wd(None, first, payload, b"raw-data")
+        elif with_data:
             Overlay().on_message_wd(None, payload, b"raw-data")
+        elif decoy:
+            Overlay().on_message2(None, first, payload)
         else:
             Overlay().on_message(None, payload)
         return got[0] if got else None
 
-    async def _sd(self):
+    async def _sd(self, epilogue=False):
         self.pre()
         t = self.now()
         before = dict(self.outstanding)
+        if any(not tk.done() for tk in self.sd_tasks):
+            self.stats["shutdown_while_shutdown_awaits"] = self.stats.get("shutdown_while_shutdown_awaits", 0) + 1
 
         def post():
             for ident, k in before.items():
@@ -623,10 +718,13 @@ class Run:
                               f"a managed future of the outstanding request {k} is still pending after shutdown")
         for ident, k in self.outstanding.items():
             self.history.setdefault(k, []).append("dropped")
-            self.stats["dropped"] += 1
+            self.stats["dropped_by_epilogue" if epilogue else "dropped"] = \
+                self.stats.get("dropped_by_epilogue" if epilogue else "dropped", 0) + 1
         self.outstanding.clear()
         self.sd = True
         self.lazy.append((t, "shutdown", "done", post))
+        for kk in before.values():
+            self.observe_cancel(kk)
         try:
             await self.rc.shutdown()
         except Boom:
@@ -687,11 +785,16 @@ class Run:
             await asyncio.sleep(0)
         self.pre()
         if not self.sd:
-            await self._sd()
+            await self._sd(epilogue=True)
         await asyncio.sleep(self.case.get("tail", 12000) / 1000.0)
         self.pre()
         for tk in self.sd_tasks:
             await tk
+        for tk, delayed, phase in self.atask_obs:
+            end = "cancelled" if tk.cancelled() else ("finished" if tk.done() else "pending")
+            self.log.append((self.now(), f"atask {1 if delayed else 0} {phase}"
+                             + (" raise" if phase == "running" and getattr(tk, "_c10_raised", False) else ""),
+                             f"body={getattr(tk, '_c10_body', 0)} end={end}"))
         for w in self.waiters:
             key = "waiter:" + ("cancelled" if w.cancelled() else "resolved" if w.done() else "pending")
             self.stats[key] = self.stats.get(key, 0) + 1
@@ -719,7 +822,7 @@ def gen_random(rng, size: int) -> dict:
     idents = [(rng.randrange(len(PFX)), rng.randrange(3)) for _ in range(n_idents)]
     if n_idents > 1 and rng.random() < 0.5:      # same number under two prefixes
         idents[1] = ((idents[0][0] + 1) % len(PFX), idents[0][1])
-    delays = [125, 250, 250, 500, 500, 1000, 1000, 2000]
+    delays = [125, 250, 250, 500, 500, 1000, 1000, 2000, 100, 50, 333]     # the last three are not binary fractions
     specs = {}
 
     def new_spec(k, depth):
@@ -752,7 +855,7 @@ def gen_random(rng, size: int) -> dict:
         if r < 0.35:
             return ["pop", p, n, rng.choice(["str", "str", "cls"])]
         if r < 0.45:
-            return ["ret", p, n, rng.choice(["str", "wd"])]
+            return ["ret", p, n, rng.choice(["str", "wd", "2p", "wd2"])]
         if r < 0.65:
             k2 = len(specs) + 1000 + rng.randrange(10 ** 6)
             while k2 in specs:
@@ -793,8 +896,8 @@ def gen_random(rng, size: int) -> dict:
         elif r < 0.62:
             op = ["pop", p, n, rng.choice(["str", "str", "cls"])]
         elif r < 0.67:
-            op = ["ret", p, n, rng.choice(["str", "wd"])]
-        elif r < 0.71:
+            op = ["ret", p, n, rng.choice(["str", "wd", "2p", "wd2"])]
+        elif r < 0.70:
             op = ["get", p, n, rng.choice(["str", "cls"])]
         elif r < 0.73:
             op = ["wait", p, n, rng.choice([None, 125, 500, 2000])]
@@ -802,7 +905,7 @@ def gen_random(rng, size: int) -> dict:
             fs = rng.choice([None, None, [0], [1], [3], [1, 3], [5], [2]])
             op = ["enter", rng.choice([0, 0, 125, 250, 1000]), fs]
         elif r < 0.84:
-            op = ["exit"]
+            op = ["exit", rng.choice(["normal", "normal", "exc"])]
         elif r < 0.88:
             op = ["clear"]
         elif r < 0.91:
@@ -828,6 +931,72 @@ def gen_random(rng, size: int) -> dict:
             "tail": 12000}
 
 
+
+NUMS_WIDE = [0, 1, 2, 3, 5, 8, 13, 255, 256, 65535, 65536, 65537, 2 ** 31, 2 ** 40 + 7, -1, -2, -65536]
+
+
+def gen_population(rng) -> dict:
+    """many objects, many identities (incl. negative and > 16 bit numbers), a longer history"""
+    nobj = rng.randrange(10, 41)
+    nid = rng.randrange(4, 13)
+    idents = [(rng.randrange(len(PFX)), rng.choice(NUMS_WIDE)) for _ in range(nid)]
+    specs = {}
+    for k in range(nobj):
+        p, n = rng.choice(idents)
+        body = []
+        if rng.random() < 0.3:
+            q, m = rng.choice(idents)
+            body = [rng.choice([["pop", q, m, "str"], ["ret", q, m, "2p"], ["get", q, m, "cls"], ["add", rng.randrange(nobj)]])]
+        specs[k] = spec(p, n, rng.choice([125, 250, 500, 1000, 1500, 2000, 3000]), rng.choice([0, 1, 2, 3]),
+                        [rng.choice([0, 1, 2]) for _ in range(rng.choice([0, 1, 2]))], body)
+    script = []
+    tmax = 4000
+    for _ in range(rng.randrange(nobj, 3 * nobj)):
+        t = rng.randrange(0, tmax // GRID + 1) * GRID
+        r = rng.random()
+        p, n = rng.choice(idents)
+        if r < 0.45:
+            op = ["mkadd", rng.randrange(nobj)]
+        elif r < 0.8:
+            op = [rng.choice(["pop", "pop", "ret"]), p, n, "str"]
+            if op[0] == "ret":
+                op[3] = rng.choice(["str", "2p", "wd2"])
+        elif r < 0.9:
+            op = ["get", p, n, rng.choice(["str", "cls"])]
+        elif r < 0.95:
+            op = ["add", rng.randrange(nobj)]
+        elif r < 0.98:
+            op = ["clear"]
+        else:
+            op = ["enter", rng.choice([0, 250]), rng.choice([None, [1], [3]])]
+        script.append([t, rng.choice([0, 0, 1, 2]), op])
+    script.sort(key=lambda e: e[0])
+    return {"family": "population", "specs": {str(k): v for k, v in specs.items()}, "script": script,
+            "end": tmax + 3500, "tail": 4000}
+
+
+def gen_long(rng) -> dict:
+    """long-lived requests: the class default (10 s) and delays beyond TaskManager's MAX_TASK_AGE (600 s), with the
+    history running past the first `_check_tasks` round (900 s) and past every deadline"""
+    idents = [(rng.randrange(len(PFX)), rng.randrange(3)) for _ in range(rng.choice([1, 2, 3]))]
+    delays = [None, None, 10000, 20000, 700_000, 1_000_000, 1_300_000]
+    specs = {}
+    n = rng.randrange(1, 5)
+    for k in range(n):
+        p, m = rng.choice(idents)
+        specs[k] = spec(p, m, rng.choice(delays), rng.choice([0, 1, 3]), [rng.choice([0, 1, 2])], [])
+    script = []
+    for _ in range(rng.randrange(2, 8)):
+        t = rng.choice([0, 1000, 5000, 9000, 10000, 11000, 100_000, 650_000, 899_000, 901_000, 1_000_000, 1_250_000])
+        r = rng.random()
+        p, m = rng.choice(idents)
+        op = ["mkadd", rng.randrange(n)] if r < 0.5 else ["pop", p, m, "str"] if r < 0.8 else ["get", p, m, "str"]
+        script.append([t, 0, op])
+    script.sort(key=lambda e: e[0])
+    return {"family": "long", "specs": {str(k): v for k, v in specs.items()}, "script": script,
+            "end": rng.choice([15_000, 950_000, 2_400_000, 2_400_000]), "tail": 20_000}
+
+
 LANES = ["pre", "at0", "at1", "hop1", "hop2", "post"]
 
 
@@ -840,7 +1009,7 @@ def lane_item(lane, op, deadline):
     return [t, hops, op]
 
 
-def lanes_case(n, same_ident, pops, glob, bodies, stagger=False) -> dict:
+def lanes_case(n, same_ident, pops, glob, bodies, stagger=False, order=None) -> dict:
     """n caches added at t=0 with delay 1000; pops[i] = lane or None; glob = (kind, lane) or None; bodies[i] in
     {None,'next','self','fresh'}"""
     d = 1000
@@ -872,13 +1041,16 @@ def lanes_case(n, same_ident, pops, glob, bodies, stagger=False) -> dict:
         (script_pre if glob[1] == "at0" else script_post).append(lane_item(glob[1], [glob[0]], d))
     # heap insertion order at the deadline: "at0" handles are pushed before the caches' sleep timers exist, "at1"
     # handles after them (via "later"); heapq is not FIFO among equal deadlines, both orders are simply observed
-    adds = [[0, 0, ["mkadd", i]] for i in range(n)]
+    # `order`: the order in which the caches are added at t=0 = the order in which their sleep timers enter the heap
+    adds = [[0, 0, ["mkadd", i]] for i in (order if order is not None else range(n))]
     items = script_pre + adds + script_post
     meta = ["lanes:n=%d" % n, "lanes:identity=" + ("shared" if same_ident else "distinct")]
     meta += ["lanes:pop@" + str(x) for x in pops] + ["lanes:body=" + str(b) for b in bodies]
     meta.append("lanes:global=" + ("none" if glob is None else f"{glob[0]}@{glob[1]}"))
     if stagger:
         meta.append("lanes:staggered")
+    if order is not None and list(order) != sorted(order):
+        meta.append("lanes:add-order-permuted")
     return {"family": "lanes", "specs": {str(k): v for k, v in specs.items()}, "script": items, "end": 2500,
             "tail": 3000, "meta": meta}
 
@@ -931,6 +1103,8 @@ def seq_space(maxlen):
 def run_case(ctx: Ctx, case: dict, lines_out: list | None):
     r = Run(case, ctx).execute()
     st = r.stats
+    # RULE: a request was registered and resolved by the scripted history itself (claim, timeout, scripted
+    # clear/shutdown) — the harness's own epilogue shutdown does not count
     nontrivial = st["added"] > 0 and (st["claimed"] + st["timeout"] + st["dropped"]) > 0
     key = repr((case["specs"], case["script"], case["end"]))
     ctx.case(key, nontrivial)
@@ -938,7 +1112,8 @@ def run_case(ctx: Ctx, case: dict, lines_out: list | None):
     for m in case.get("meta", []):
         ctx.count(m)
     ctx.count("identities:%d" % len({(sp.get("p"), sp.get("n")) for sp in r.specs.values()}))
-    ctx.count("objects:%d" % min(len(r.order), 8))
+    no = len(r.order)
+    ctx.count("objects:" + (str(no) if no < 8 else "8-15" if no < 16 else "16-31" if no < 32 else ">=32"))
     ctx.count("events:%s" % ("<10" if len(r.log) < 10 else "<25" if len(r.log) < 25 else "<60" if len(r.log) < 60 else ">=60"))
     for k, v in st.items():
         if v:
@@ -989,11 +1164,29 @@ def compare_with_model(ctx: Ctx, batch):
 def family_cases(ctx: Ctx):
     rng = ctx.rng
     # random histories
-    n_random = ctx.scale(5000, 50000)
+    n_random = ctx.scale(5000, 30000)
     for i in range(n_random):
         yield gen_random(rng, rng.choice([1, 2, 2, 3, 4, 4, 5, 6]))
+    for i in range(ctx.scale(150, 2000)):
+        yield gen_population(rng)
+    for i in range(ctx.scale(150, 1500)):
+        yield gen_long(rng)
     # exhaustive small scopes (thorough) / seeded samples of them (quick)
     if ctx.thorough():
+        # n = 3 beyond the racing lanes: every add order, all 6 lanes and all 6 bodies, sampled
+        lanes6 = [None] + LANES
+        bodies6 = [None, "next", "self", "fresh", "readd", "clear_readd"]
+        for _ in range(20000):
+            yield lanes_case(3, rng.random() < 0.5, tuple(rng.choice(lanes6) for _ in range(3)),
+                             rng.choice([None] + [(g, ln) for g in ("clear", "shutdown") for ln in LANES]),
+                             tuple(rng.choice(bodies6) for _ in range(3)), rng.random() < 0.3,
+                             rng.choice(list(itertools.permutations(range(3)))))
+        for order in itertools.permutations(range(3)):
+            if list(order) != [0, 1, 2]:
+                for a in lanes_space(3, False):
+                    if a[1] and a[3] is None:           # shared identity is order-insensitive apart from the winner
+                        continue
+                    yield lanes_case(*a, order=order)
         for n in (1, 2):
             for a in lanes_space(n, True):
                 yield lanes_case(*a)
@@ -1013,12 +1206,14 @@ def family_cases(ctx: Ctx):
         space2 = list(lanes_space(2, True)) + [a for a in lanes_space(2, True, stagger=True) if not a[1]]
         for _ in range(1500):
             yield lanes_case(*rng.choice(space2))
-        for n, cnt in ((3, 400), (4, 300)):
-            lanes = ["at1", "hop1", "hop2"]
+        for n, cnt in ((3, 500), (4, 300)):
+            lanes = [None] + LANES
+            bodies = [None, "next", "self", "fresh", "readd", "clear_readd"]
             for _ in range(cnt):
-                a = (n, rng.random() < 0.5, tuple(rng.choice([None] + lanes) for _ in range(n)),
-                     rng.choice([None] + [(g, ln) for g in ("clear", "shutdown") for ln in lanes]),
-                     tuple(rng.choice([None, "next", "readd"]) for _ in range(n)))
+                a = (n, rng.random() < 0.5, tuple(rng.choice(lanes) for _ in range(n)),
+                     rng.choice([None] + [(g, ln) for g in ("clear", "shutdown") for ln in LANES]),
+                     tuple(rng.choice(bodies) for _ in range(n)), rng.random() < 0.25,
+                     rng.choice(list(itertools.permutations(range(n)))))
                 yield lanes_case(*a)
         for seq, atd in seq_space(3):
             yield seq_case([SEQ_ALPHABET[i] for i in seq], atd)
@@ -1046,11 +1241,15 @@ def run(ctx: Ctx):
     if batch:
         compare_with_model(ctx, batch)
     ctx.extra["exhaustive_scopes"] = (
-        "lanes: n=1,2 caches x {absent,6 lanes} per pop x {none, clear|shutdown x 6 lanes} x 4 bodies each, same/"
-        "distinct identity, n=2 also with staggered deadlines; n=3,4 caches x 3 racing lanes x 2 bodies; "
-        "sequences: every op sequence up to length 5 over 6 ops x {t=0, at the deadline}, up to length 4 with unequal "
-        "delays") if ctx.thorough() else (
-        "lanes n=1 complete, n=2..4 seeded samples; sequences complete up to length 3 + samples of length 4-6")
+        "COMPLETE: lanes n=1,2 caches x {absent,6 lanes} per pop x {none, clear|shutdown x 6 lanes} x 6 bodies each "
+        "(none, pop neighbour, pop self, add fresh, re-add self, clear+re-add self), shared/distinct identity, n=2 also "
+        "staggered; lanes n=3,4 x 3 racing lanes (at1,hop1,hop2) x 3 bodies (none, pop neighbour, re-add self), n=3 also "
+        "in all 6 add orders; sequences: every op sequence up to length 5 over 6 ops x {t=0, at the deadline}, up to "
+        "length 4 with unequal delays.  SAMPLED (not exhaustive): n=3 with all lanes/bodies/add orders (20000 draws); "
+        "which of the n! same-instant expiry orders occurs is whatever the loop's heap yields for the given add order") \
+        if ctx.thorough() else (
+        "COMPLETE: lanes n=1; sequences up to length 3.  SAMPLED: lanes n=2 (1500 draws), n=3 (500), n=4 (300) over all "
+        "lanes/bodies/add orders; sequences of length 4-6 (600)")
 
 
 def search(ctx: Ctx, reason: str):
